@@ -167,6 +167,11 @@ def run(ctx, configs=None):
                 arrs = [s_["rv"] for _, _, s_ in fnew.stmts() if s_["k"] == "assign" and s_["rv"]["k"] == "agg" and s_["rv"].get("ak") == "array"]
                 if len(arrs) == 1:
                     init_len = len(arrs[0]["fields"])
+            if init_len is None and tw is not None and T.is_call(T.peel(tw), r"slice::<impl \[T\]>::(to_vec|to_owned|into_vec)$|ToOwned>::to_owned$|From<&\[T\]>>::from$|From<&\[T; N\]>>::from$|From<\[T; N\]>>::from$"):
+                # a copy of a constant array / slice (`HEADER.to_vec()`, `Vec::from(HEADER)`): as long as the constant
+                cb = T.find(tw, lambda x: isinstance(x, tuple) and x and x[0] == "const" and isinstance(x[1], tuple) and x[1] and x[1][0] == "bytes")
+                if cb is not None:
+                    init_len = len(cb[1][1])
             seq0 = d.get("seq")
             ctx.ob("C04.header-equals-payload", init_len == H, "initial pending buffer has %s bytes, header size is %s" % (init_len, H), fn=fnew.path, construct="initial-length",
                    sample={"rule": "header-equals-payload", "initial": init_len, "H": H})
